@@ -352,8 +352,51 @@ end Tumfl.Gen
 """
 
 
+# --------------------------------------------------------------------------- formatter tables
+def extract_fmttables(rep: Report) -> str:
+    import tumfl.formatter as F
+    esc = ", ".join(f"({lchar(k)}, {lchar(v)})" for k, v in F.ESCAPE_CHARACTERS.items())
+    spaces = [c for c in range(0x110000) if not (0xD800 <= c <= 0xDFFF) and chr(c).isspace()]
+    alnum = [c for c in range(128) if chr(c).isalnum()]
+    mb = ", ".join(f"({lchar(k)}, {lchar(v)})" for k, v in F.MATCHING_BRACKETS.items())
+
+    def sd(cls) -> str:
+        def v(x):
+            if isinstance(x, bool):
+                return "true" if x else "false"
+            if isinstance(x, int):
+                return str(x)
+            return lstr(x) + ".toList"
+        fields = ["STATEMENT_SEPARATOR", "INDENTATION", "ARGUMENT_SEPARATOR", "INCLUDE_COMMENTS", "COMMENT_SEP", "USE_SINGLE_QUOTE",
+                  "USE_CALL_SHORTHAND", "REMOVE_UNNECESSARY_CHARS", "ADD_ALL_BRACKETS", "ADD_CLOSE_BRACKETS", "SPACE_IN_TABLE",
+                  "NEWLINE_LIMIT", "LINE_WIDTH", "BLOCK_SPACER", "KEEP_SEMICOLON"]
+        return "[" + ", ".join(f"({lstr(f)}, {lstr(repr(getattr(cls, f)))})" for f in fields) + "]"
+
+    return f"""/-! GENERATED by harness/extract.py from /repo (tumfl/formatter.py, the running interpreter's str predicates) - do not edit. -/
+namespace Tumfl.Gen
+
+/-- ESCAPE_CHARACTERS: character -> escape letter -/
+def escapeCharacters : List (Char × Char) := [{esc}]
+/-- code points for which this interpreter's `str.isspace()` is true -/
+def pyIsSpace : List Nat := {spaces}
+/-- ASCII code points for which `str.isalnum()` is true -/
+def pyIsAlnumAscii : List Nat := {alnum}
+/-- MATCHING_BRACKETS: closing -> opening -/
+def matchingBrackets : List (Char × Char) := [{mb}]
+/-- `string.ascii_letters`, `string.digits` -/
+def asciiLetters : List Char := [{", ".join(lchar(c) for c in __import__("string").ascii_letters)}]
+def digits : List Char := [{", ".join(lchar(c) for c in __import__("string").digits)}]
+/-- attribute values of the two built-in styles, as `repr` -/
+def defaultStyleRepr : List (String × String) := {sd(F.FormattingStyle)}
+def minifiedStyleRepr : List (String × String) := {sd(F.MinifiedStyle)}
+
+end Tumfl.Gen
+"""
+
+
 EXTRACTORS = {
     "Brackets": extract_brackets,
+    "FmtTables": extract_fmttables,
     "Ladder": extract_ladder,
     "LexTables": extract_lextables,
 }
